@@ -93,6 +93,11 @@ TEMPLATES = [
     T('iso 12h hm glued', 'hm', lambda d, n, s: ymd(d) + ' %02d:%02d%s' % (h12(d)[0], d.minute, h12(d)[1].lower()), group='ampm'),
     T('iso 12h h only', 'h', lambda d, n, s: ymd(d) + ' %d %s' % (h12(d)[0], h12(d)[1]), group='ampm'),
     T('iso 12h h glued', 'h', lambda d, n, s: ymd(d) + ' %d%s' % (h12(d)[0], h12(d)[1].lower()), group='ampm'),
+    T('hAM first Mon D, Y', 'h', lambda d, n, s: '%d%s %s %d, %04d' % (h12(d)[0], h12(d)[1], MON[d.month - 1], d.day, d.year),
+      offset_ok=False, bare_year=True, group='ampm'),
+    T('h pm first iso', 'h', lambda d, n, s: '%d %s %s' % (h12(d)[0], h12(d)[1].lower(), ymd(d)), offset_ok=False, group='ampm'),
+    T('hh:mmAM first D Mon Y', 'hm', lambda d, n, s: '%02d:%02d%s %d %s %04d' % (h12(d)[0], d.minute, h12(d)[1], d.day, MON[d.month - 1], d.year),
+      offset_ok=False, bare_year=True, group='ampm'),
     T('iso 12h a.m./p.m.', 'hm', lambda d, n, s: ymd(d) + ' %d:%02d %s' % (h12(d)[0], d.minute, {'AM': 'a.m.', 'PM': 'p.m.'}[h12(d)[1]]),
       offset_ok=False, group='ampm'),
     # NNhNNmNNs
